@@ -23,6 +23,25 @@ CLOCKS = {
 }
 
 
+def random_clock(rnd, n):
+    """a clock as an explicit list of readings: phases of fast / normal / slow / boundary / backwards increments"""
+    times, t = [], 0.0
+    while len(times) < n:
+        kind = rnd.choice(["fast", "fast", "normal", "slow", "slow", "boundary", "back"])
+        for _ in range(rnd.choice([1, 2, 3, 5, 8, 13])):
+            dt = {"fast": 0.001, "normal": 5.0, "slow": 100.0, "boundary": rnd.choice([1.0, 10.0]), "back": -3.0}[kind]
+            t += dt
+            times.append(t)
+    return times[:n]
+
+
+def clock_fn(clockname):
+    if isinstance(clockname, str):
+        return CLOCKS[clockname]
+    times = clockname
+    return lambda k: times[min(k, len(times) - 1)]
+
+
 def gen_ops(rnd, L, height):
     ops = []
     for _ in range(L):
@@ -40,7 +59,7 @@ def run_store(ops, clockname, ext, tmp, tag):
     from hmclab.Samples import Samples
 
     fn = os.path.join(tmp, f"s{tag}.{ext}")
-    clock = ScriptedClock(CLOCKS[clockname])
+    clock = ScriptedClock(clock_fn(clockname))
     idx = []
     with patched_clock(clock, samplers=False), quiet():
         s = Samples(fn, mode="w", overwrite=True)
@@ -97,7 +116,9 @@ def run(tier, seed):
         for i in range(N):
             L = rnd.choice([0, 1, 2, 3, 5, 8, 13, 21, 40])
             h = rnd.choice([2, 3, 5, 9])
-            cases.append((gen_ops(rnd, L, h), rnd.choice(list(CLOCKS)), rnd.choice(["h5", "npy"]), h))
+            ops = gen_ops(rnd, L, h)
+            clockname = rnd.choice(list(CLOCKS)) if rnd.random() < 0.4 else random_clock(rnd, 2 * len(ops) + 6)
+            cases.append((ops, clockname, rnd.choice(["h5", "npy"]), h))
         if thorough:  # all op sequences of length <= 5 over a 3-letter alphabet, both back ends
             for L in range(0, 6):
                 for word in itertools.product("PFW", repeat=L):
@@ -107,7 +128,7 @@ def run(tier, seed):
         reqs, metas = [], []
         for ci, (ops, clockname, ext, h) in enumerate(cases):
             fn, idx, ticks = run_store(ops, clockname, ext, tmp, ci)
-            clk = [CLOCKS[clockname](k) for k in range(2 * len(ops) + 4)]
+            clk = [clock_fn(clockname)(k) for k in range(2 * len(ops) + 4)]
             line = f"c10.store {vhex(clk)} {len(ops) + 1} " + " ".join(("P " + vhex(o[1])) if o[0] == "P" else o[0] for o in ops) + " C"
             reqs.append(line)
             metas.append((ops, clockname, ext, fn, idx, ticks))
@@ -224,7 +245,33 @@ def run(tier, seed):
 
 
 def search(tier, seed, broken):
-    return []
+    """after a broken proof/correspondence: many more clock schedules and longer op sequences, direct read-back oracle only"""
+    rnd = random.Random(seed + 1010)
+    findings = []
+    from hmclab.Samples import Samples
+
+    with scratch() as tmp:
+        for ci in range(400):
+            n = rnd.choice([5, 9, 14, 22, 35, 60])
+            h = rnd.choice([2, 3])
+            ops = [("P", np.array([[float(ci)], [float(j)]] + [[0.5]] * (h - 2))) for j in range(n)]
+            clockname = random_clock(rnd, 2 * n + 6)
+            ext = rnd.choice(["h5", "npy"])
+            try:
+                fn, idx, ticks = run_store(ops, clockname, ext, tmp, f"x{ci % 8}")
+                rb = read_back(fn, 0)
+            except Exception as e:
+                rb = {"error": repr(e)}
+            expect = np.hstack([o[1] for o in ops])
+            ok = rb is not None and "error" not in rb and rb["numpy"].shape == expect.shape and np.array_equal(rb["numpy"], expect) and rb["write_index"] == n
+            if not ok:
+                stim = {"ops": [["P"] + o[1].ravel().tolist() for o in ops], "clock": clockname, "backend": ext}
+                what = "unreadable" if rb is None else rb.get("error") or f"shape {rb['numpy'].shape}, write_index {rb['write_index']}"
+                findings.append(Finding("C10", f"{ext} file after {n} appends under a phased clock: expected {n} columns as appended, observed {what}",
+                                        {"kind": "readback", "backend": ext, "what": "numpy"}, {"oracle": "readback", "stimulus": stim, "observed": str(what)}))
+                if len(findings) >= 2:
+                    break
+    return findings
 
 
 def replay(body):
